@@ -10,7 +10,8 @@ and behaviour, not from names.
 import re
 
 from cfg import cfg_of
-from expr import Exprs, fmt, walk, contains
+from expr import Exprs, fmt, walk, contains, strip_tags
+from mirutil import for_loops
 from paths import enumerate_paths, path_events, cond_truth, feasible
 from framework import site_of
 
@@ -198,6 +199,20 @@ def run(F, rep):
     # ------------------------------------------------------------ per path rules
     for name, (f, ex, paths, evs) in sorted(allpaths.items()):
         params = f.arg_names()
+        # a bulk insert: the heap push sits in a `for _ in 0..count` loop (count a parameter) that is left only by exhaustion
+        gq = cfg_of(f)
+        bulk = None
+        for L in for_loops(f, ex):
+            pb = [bi for bi, t in f.calls() if bi in L["body"] and ccall(t, ex) and ccall(t, ex)[0] == "heap_push"]
+            if pb:
+                rng = L.get("range")
+                exits = {(b, s2) for b in L["body"] for s2 in gq.succ[b] if s2 not in L["body"] and not f.blocks[s2]["cleanup"]}
+                bulk = {"body": L["body"], "range": rng, "exits": exits, "site": L["site"],
+                        "ok": bool(rng) and strip_tags(rng[0]) == ("const", 0) and isinstance(strip_tags(rng[1]), tuple) and strip_tags(rng[1])[0] == "param" and len(exits) == 1}
+        if bulk is not None:
+            rep.ob("C06-Q3", "%s: bulk insert runs once per requested copy (for _ in 0..count, left only by exhaustion)" % name, bulk["ok"],
+                   detail="range %s, %d exit edge(s)" % (bulk["range"] and (fmt(bulk["range"][0]), fmt(bulk["range"][1])), len(bulk["exits"])), site=bulk["site"],
+                   key="C06-Q3 | %s | bulk loop" % f.key)
         for pi, pe in enumerate(evs):
             pdesc = "%s path#%d" % (name, pi)
             kinds = [e.kind for e in pe]
@@ -215,6 +230,8 @@ def run(F, rep):
                     nxt = _next_of(pe, i, ("write_" + R["size"], "wait", "return", "heap_push", "heap_pop"))
                     ok = nxt is not None and nxt.kind == "write_" + R["size"] and \
                         _is_add_of(nxt.data, R["size"], size_e)
+                    if not ok and strip_tags(size_e) == ("const", 0) and (nxt is None or nxt.kind != "write_" + R["size"]):
+                        ok = True        # an item recorded with size 0 adds nothing to the byte count
                     rep.ob("C06-Q2", "%s: insert followed by %s += pushed size" % (name, R["size"]), ok,
                            detail="path %s; next accounting event: %s" % (pdesc, nxt), site=e.site,
                            key="C06-Q2 | %s | insert accounting" % f.key)
@@ -239,10 +256,12 @@ def run(F, rep):
                     item_ok = False
                     for e in pe:
                         if e.kind == "heap_push" and isinstance(e.data[1], tuple) and e.data[1][0] == "agg":
-                            it = dict(e.data[1][2]).get(wf_item)
-                            item_ok = it is not None and it[0] == "param"
-                    rep.ob("C06-Q3", "%s: Ok path inserts the argument exactly once" % name,
-                           npush == 1 and npop == 0 and item_ok, detail="%s: pushes=%d" % (pdesc, npush),
+                            it = strip_tags(dict(e.data[1][2]).get(wf_item))
+                            item_ok = it is not None and (it[0] == "param" or (bulk is not None and it[0] == "call" and re.search(r"Clone(>)?::clone$", it[1]) and it[2] and contains(it[2][0], lambda x: isinstance(x, tuple) and x[0] == "param") and not contains(it[2][0], lambda x: isinstance(x, tuple) and x[0] == "call")))
+                    if bulk is not None and npush == 0:
+                        item_ok = True       # the zero-copies path of a bulk insert
+                    rep.ob("C06-Q3", "%s: Ok path inserts the argument exactly once%s" % (name, " per loop iteration" if bulk is not None else ""),
+                           (npush == 1 or (bulk is not None and npush == 0)) and npop == 0 and item_ok, detail="%s: pushes=%d" % (pdesc, npush),
                            site=rets[-1].site, key="C06-Q3 | %s | Ok path" % f.key)
                 elif ret and ret[0] == "Err":
                     rep.ob("C06-Q3", "%s: Err path inserts nothing" % name, npush == 0 and npop == 0,
@@ -262,8 +281,13 @@ def run(F, rep):
             if npush == 1 and ret and ret[0] == "Ok":
                 i = kinds.index("heap_push")
                 ok = any(e.kind in ("notify_one", "notify_all") and cv_name(e.data) == cv_not_empty for e in pe[i:])
+                why5 = pdesc
+                if ok and bulk is not None:
+                    # several items become available in one call: one notify_one wakes one consumer, the others sleep on
+                    ok = any((e.kind == "notify_all" or (e.kind == "notify_one" and e.block in bulk["body"])) and cv_name(e.data) == cv_not_empty for e in pe[i:])
+                    why5 = pdesc + ("" if ok else ": the loop can insert several items but consumers are woken with a single notify_one after it; every waiting consumer that could take one of the items must be woken (notify_all, or notify_one per insert)")
                 rep.ob("C06-Q5", "%s: successful insert notifies the consumers' condvar" % name, ok,
-                       detail=pdesc, site=pe[i].site, key="C06-Q5 | %s | notify after insert" % f.key)
+                       detail=why5, site=pe[i].site, key="C06-Q5 | %s | notify after insert" % f.key)
             if npop == 1 and ret and ret[0] == "Some":
                 i = kinds.index("heap_pop")
                 ok = any(e.kind in ("notify_one", "notify_all") and cv_name(e.data) == cv_not_full for e in pe[i:])
@@ -284,6 +308,9 @@ def run(F, rep):
                     size_param = dict(agg[2]).get(wf_size)
                 fits = False
                 why = "no capacity test on this path"
+                if strip_tags(size_param) == ("const", 0):
+                    fits = True
+                    why = "the item is recorded with size 0: it cannot push the byte count over the capacity"
                 for e in conds:
                     r = _capacity_cond(e, R, size_param)
                     if r is True:
